@@ -212,7 +212,7 @@ PROPS = {
              "footnote parser, probe AST transformer at priority 998, HTML id/href extraction). The abstraction of a document into (labels, events) "
              "is computed from the real parse, not proved. 'Referenced' is read at source level (any recognised [^label], also in alt text or in a removed footnote).",
         technique="Lean 4 theorems over a hand-written model; differential correspondence check against the Go implementation; property oracle on the rendered HTML",
-        components=["footnote"],
+        components=["footnote", "convertf"],
         explanation="Theorems over all definition/reference sequences about the Lean model of extension/footnote.go (GM.Model.Footnote); the model's "
                     "input is derived from the real parse by two passive probes and its predicted ids, hrefs, shown numbers, link counters and item "
                     "provenance are compared with the real HTML and final AST on an exhaustively enumerated token scope plus random documents; "
@@ -778,3 +778,34 @@ PROPS["C02"]["note"] = PROPS["C02"]["note"].replace("Known deviation reported un
     "Known deviation reported under its own clause: tabs in list-item continuation indentation (KNOWN_FINDINGS). Not expressible by the spec-side generator "
     "(labels and titles of GM.Spec.CommonMark.RefDef are single-line): a label / title of a link reference definition that continues on a tab-padded "
     "container line - covered by the regression list of component convert and by the model tie only.")
+
+# ---- session 4, packages fnx / shiftsim round 2 / wf0 round 2 ----
+PROPS["C16"]["claim"] += (" END TO END: GM.ConvertF.convertF true (convertCore + extension.Footnote: block parser Open / Continue / Close with the FootnoteList "
+    "in the parse context, the inline parser in front of the link parser, the AST transformer as a total function on the tree, FootnoteHTMLRenderer; tied "
+    "by component `convertf` on whole documents - HTML byte for byte AND the abstraction (labels, events) computed by the model against the one the probes "
+    "observe). The abstraction GM.Props.C16 speaks about is computed from the concrete parse (e2e_convertf_events_are_abstraction); for EVERY tree in front "
+    "of the transformer that satisfies the decidable AST shape (one list, its children the definitions in order, no Footnote elsewhere) the tree the "
+    "renderer receives shows exactly GM.Footnote.render of that abstraction (e2e_convertf_tree_shows_abstraction), hence all six clauses hold of the ids / "
+    "hrefs / numbers FootnoteHTMLRenderer writes (e2e_convertf_footnotes_consistent; the shape is evaluated on every tie case, never false; ShapeAlwaysOK "
+    "stated, not proved).")
+PROPS["C16"]["assumptions"] = [a if not a.startswith("the document abstraction") else
+    "the document abstraction (definition labels, reference events) is computed by the composed model convertF and compared with the probes' observation on every tie case; the AST shape hypothesis of e2e_convertf_footnotes_consistent is evaluated on every tie case, not proved"
+    for a in PROPS["C16"].get("assumptions", [])]
+PROPS["C11"]["claim"] += (" Footnote at WHOLE-DOCUMENT level, full statement: every source without the two bytes `[^` converts to the same HTML / outcome with "
+    "and without extension.Footnote on the composed model (convertf_conservative) - the block parser is consulted at every line starting with `[` and "
+    "declines without a trace (convertf_conservative_blockphase: a reader-cache invariant through all block parsers), the inline parser is consulted at "
+    "every `!` / `[`, may advance the reader, and SetPosition restores it exactly (convertf_inline_phase_without_list).")
+PROPS["C01"]["claim"] += (" convertF (composed model with Footnote) never exhausts fuel with the extension off and on `[^`-free sources "
+    "(convertf_never_loops_partial / _conservative); in general reduced to BlockNoLoopF and InlineNoLoopF (convertf_never_loops_of). Hand-over to the "
+    "inline phase, round 2 of wf0: inline_lines_wf0 - for EVERY byte string every inline-bearing block of the transformer-free block phase has WF0 lines "
+    "(padding 0: nonraw_lines_padding_zero; the open-block stack is empty when the run returns: open_stack_empty_at_end).")
+PROPS["C05"]["claim"] += (" Round 2 of wf0: the order clause is now a theorem for ALL kinds - lines_in_range_and_ordered : for every source, every line segment "
+    "of every node of the final store of the (transformer-free) block phase is in range and a block's lines increase (raw_block_lines_ordered closes the "
+    "three raw kinds: a sharpened padding invariant 'padding set => strictly behind the line start' through block quote / list item / code / fenced "
+    "readers); container nodes have no lines (container_nodes_no_lines); the close discipline of the driver (every open block attached, of its parser's "
+    "kind, pushed once and popped once, empty stack at the end) is proved in a reusable form (GM.Proof.BlocksClosed*).")
+PROPS["C09"]["claim"] += (" Round 2 of shiftsim: shift invariance now covers ALL TEN block parsers, lists included, for every source b (shift_invariance), and "
+    "the first half of C09 is a THEOREM whenever the first part is empty: independent_blocks_empty_a_all - for every heading text h and EVERY document b the "
+    "blocks of '# h' + blank line + b are the heading and the blocks of b alone, moved; for a non-empty first part the composition is proved from one "
+    "explicit hypothesis about the prefix (independent_blocks_from_prefix: PrefixReached - prefix determinism and 'closing at end of input = closing by "
+    "blank line + heading', not proved); store_acyclic: in every store the block phase builds child ids exceed the parent's id.")
